@@ -18,7 +18,8 @@ RULE = ('lists of 1-4 scripts x initial cache x limits. Families: (a) Hypothesis
         'composition of the scripts through run_script / run_tape on one shared stack and cache (verdict must be equal '
         'in both directions), totality (never raises). non-trivial = >= 2 scripts, an earlier script contains RETURN / '
         'DEF / cache write / CALL / EVAL or leaves >= 2 items, and the last script has a control-flow construct or >= 3 '
-        'instructions; distinct = digest of (scripts, cache, limits).')
+        'instructions; distinct = digest of (scripts, cache, limits).'
+        " Added oracles: the statement executed on the independent reference interpreter vt/refvm.py (verdict compared whenever the reference does not stop at an ambiguity); every case re-run with a 'returned' entry added to the initial cache (verdict must not change); task optimised: verdicts of ~400 generated lists and builder pairs compared with a fresh interpreter started with python -O; task errors: a failing program from the typed instruction generator (>= 6 exception types) at a random position. Script lists whose work explodes (> 60 000 tape reads) are skipped and counted.")
 ASSUMPTIONS = ['the hand composition reuses the implementation of single-script execution (run_script / run_tape); only '
                'the sequencing across scripts is independent', 'locks used for the sentinel oracle contain RETURN only '
                'inside DEF bodies or pushed-and-evaluated scripts']
